@@ -38,8 +38,19 @@ impl<'a> Gen<'a> {
     }
 
     /// A goal binding `v` in 0..n ways (n states will reach what follows).
-    fn binder(&mut self, v: VarIx) -> G {
+    fn binder(&mut self, v: VarIx, other: Option<VarIx>) -> G {
         let val = |g: &mut Self| -> T {
+            if let Some(o) = other {
+                // a structure around another variable that is bound elsewhere (possibly in
+                // several ways, possibly later): projection must walk into it per state
+                if g.w.chance(1, 4) {
+                    return match g.w.below(3) {
+                        0 => T::list(vec![T::V(o)]),
+                        1 => T::list(vec![T::I(g.w.range(0, 3)), T::V(o)]),
+                        _ => T::cons(T::V(o), T::V(o)),
+                    };
+                }
+            }
             match g.w.below(6) {
                 0 => T::list(vec![T::I(g.w.range(1, 4))]),
                 1 => T::S("a".into()),
@@ -99,7 +110,13 @@ impl<'a> Gen<'a> {
             let out = T::V(*self.w.pick(outs));
             let g = match self.w.below(9) {
                 0 | 1 => G::Prim(PFn::Square, T::V(x), out),
-                2 => G::Prim(PFn::Succ, T::V(x), out),
+                2 => {
+                    if self.w.chance(1, 2) {
+                        G::Prim(PFn::Succ, T::V(x), out)
+                    } else {
+                        G::Prim(PFn::HeadSquare, T::V(x), out)
+                    }
+                }
                 3 => G::Prim(PFn::IsNumber, T::V(x), T::Nil),
                 4 => {
                     let o2 = self.w.pick(outs);
@@ -131,11 +148,16 @@ fn gen_program(w: &mut Rng, l: &mut Rng) -> Program {
     // query variables 0 and 1 receive results; 2 and 3 are the projected variables
     let x = 2;
     let y = 3;
-    let mut goals = vec![g.binder(x)];
+    let mut goals = vec![g.binder(x, Some(y))];
     let two = g.w.chance(1, 3);
-    let bind_y = two || g.w.chance(1, 2);
+    let bind_y = two || g.w.chance(2, 3);
     if bind_y {
-        goals.push(g.binder(y));
+        let by = g.binder(y, None);
+        if g.w.chance(1, 2) {
+            goals.push(by);
+        } else {
+            goals.insert(0, by);
+        }
     }
     if g.w.chance(1, 3) {
         goals.push(g.suspension());
